@@ -202,8 +202,9 @@ def r06_4(ctx):
             if isinstance(q, ast.AsyncWith) and any(isinstance(it.context_expr, ast.Call) and it.context_expr.func is nnode for it in q.items):
                 # (which method holds the `async with` is decided by the exploration above: send and wait must be inside it)
                 ok = g.cls is not None and "ProtocolHandler" in g.cls.base_names()
-            if isinstance(q, ast.Attribute) and q.value is nnode and q.attr in ("locked", "value", "max_value"):
-                ok = True
+            if isinstance(q, ast.Attribute) and q.value is nnode and q.attr not in ("acquire", "release", "_waiters", "_value", "__aenter__", "__aexit__") \
+                    and isinstance(q.ctx, ast.Load):
+                ok = True  # a read-only query (locked(), value, num_waiting ...): diagnostics, not slot management
         ctx.require(ok, f"semaphore-use:{g.short}", f"send semaphore used in {g.short} line {nnode.lineno} other than `async with` in command()",
                     func=g, node=nnode)
     from .ash_link import confined_writers
@@ -400,7 +401,8 @@ def r06_8(ctx):
     f = repo.func("bellows.ezsp:EZSP.handle_callback")
     ctx.fn(f)
     cls = repo.cls("bellows.ezsp", "EZSP")
-    px = PX(repo, models=[("handler", Outcomes(OK(None), RAISE("ValueError"), RAISE("KeyError")))], inline=lambda g, aw: False)
+    outs = Outcomes(OK(None), RAISE("ValueError"), RAISE("KeyError"))
+    px = PX(repo, models=[("cb1", outs), ("cb2", outs), ("cb3", outs)], inline=same_class(stop=()))  # keyed on the callbacks themselves, whatever the loop variable is called
 
     def setup():
         return self_obj(cls, {"_callbacks": {1: Sym("cb1"), 2: Sym("cb2"), 3: Sym("cb3")}}), {"args": (Sym("name"), Sym("values"))}
@@ -409,11 +411,11 @@ def r06_8(ctx):
     ctx.paths += len(paths)
     ctx.anchor(len(paths) >= 9, "handle_callback outcome paths")
     for p in paths:
-        cs = [e for e in p.events if e.kind == "call" and e.what == "handler"]
-        ok = (p.terminal == "return" and [e.callee for e in cs] == ["cb1", "cb2", "cb3"]
+        cs = [e for e in p.events if e.kind == "call" and (e.what in ("cb1", "cb2", "cb3") or e.callee in ("cb1", "cb2", "cb3"))]
+        ok = (p.terminal == "return" and [(e.callee or e.what) for e in cs] == ["cb1", "cb2", "cb3"]
               and all(e.args == (Sym("name"), Sym("values")) for e in cs))
         pid = "/".join(str(e.extra)[:18] for e in cs)
-        ctx.require(ok, f"fanout:{pid}", f"callbacks invoked {[e.callee for e in cs]} with outcomes [{pid}] -> {p.terminal} {p.value!r}; every "
+        ctx.require(ok, f"fanout:{pid}", f"callbacks invoked {[(e.callee or e.what) for e in cs]} with outcomes [{pid}] -> {p.terminal} {p.value!r}; every "
                     "registered callback must run exactly once and no exception may escape", func=f, trace=p.trace())
 
 
@@ -889,15 +891,33 @@ def r08_4(ctx):
     n_ok = 0
     for f in rx_funcs:
         ctx.fn(f)
+        # local aliases of attributes (`awaiting = self._awaiting`): a mutation through the alias is a mutation of the attribute
+        alias = {}
+        for n in ast.walk(f.node):
+            if isinstance(n, ast.Assign) and len(n.targets) == 1 and isinstance(n.targets[0], ast.Name) and isinstance(n.value, ast.Attribute) \
+                    and text(n.value.value) == "self":
+                alias[n.targets[0].id] = n.value.attr
+
+        def owner(expr):
+            t_ = text(expr)
+            if t_.startswith("self."):
+                return t_[5:].split(".")[0].split("[")[0]
+            root = expr
+            while isinstance(root, (ast.Attribute, ast.Subscript)):
+                root = root.value
+            if isinstance(root, ast.Name) and root.id in alias:
+                return alias[root.id]
+            return None
+
         for n in ast.walk(f.node):
             tgt = None
             if isinstance(n, ast.Attribute) and isinstance(n.ctx, (ast.Store, ast.Del)) and text(n.value) == "self":
                 tgt = ("store", n.attr)
-            elif isinstance(n, ast.Subscript) and isinstance(n.ctx, (ast.Store, ast.Del)) and text(n.value).startswith("self."):
-                tgt = ("item", text(n.value)[5:].split(".")[0].split("[")[0])
-            elif isinstance(n, ast.Call) and isinstance(n.func, ast.Attribute) and text(n.func.value).startswith("self.") \
+            elif isinstance(n, ast.Subscript) and isinstance(n.ctx, (ast.Store, ast.Del)) and owner(n.value):
+                tgt = ("item", owner(n.value))
+            elif isinstance(n, ast.Call) and isinstance(n.func, ast.Attribute) and owner(n.func.value) \
                     and n.func.attr in ("append", "extend", "add", "pop", "remove", "clear", "update", "setdefault", "discard", "insert", "popitem"):
-                tgt = (n.func.attr, text(n.func.value)[5:].split(".")[0].split("[")[0])
+                tgt = (n.func.attr, owner(n.func.value))
             if tgt is None:
                 continue
             if tgt == ("pop", "_awaiting"):
